@@ -7,7 +7,11 @@
 //! `checked_sub`; `to_duration` on the whole pool.
 //!
 //! Oracle (DESIGN.md section 3/C11; metamorphic and exact). With `E = r + span`
-//! and `R = r + rounded`, both through jiff's own addition (pinned by C06/C08):
+//! and `R = r + rounded`. Every such point is computed twice - by jiff's own
+//! addition and by the reference addition of `c11/model.rs` (refmodel::cal /
+//! refmodel::tz only) - and reconciled (`reconcile`): a disagreement is reported
+//! under `helper` as `<op>/value-differs-from-reference-addition` and the
+//! reference value is used, so the oracle does not lean on jiff's addition:
 //! 1. structure: fields of `rounded` below `smallest` are zero, the `smallest`
 //!    *field* is a multiple of the increment, nothing above `largest` (above
 //!    `max(smallest, span's own largest unit)` when unset) is non-zero, one sign;
@@ -55,6 +59,29 @@
 //! Neighbours relative to a zoned datetime follow Zoned::checked_add: a
 //! non-zero calendar displacement is resolved with "compatible", a zero one is
 //! r itself (which matters when r is on the later side of a fold).
+//!
+//! Coverage extension (see also `c11/ext.rs`):
+//! * 1b. balanced: no field of `rounded` holds a whole unit of the next allowed
+//!   field where that unit has a fixed length (`unbalanced_unit`); signatures
+//!   `Span::round/not-balanced:<unit>-field:<input class>`;
+//! * `smallest=week,largest>week,zoned` (W1) is only used as the input class
+//!   when the UTC offset changes somewhere within reach of the rounding;
+//!   otherwise all weeks are 168 h, W1 cannot apply, and the ordinary class is
+//!   used (so such a failure is not absorbed by the W1 findings);
+//! * `zoned:next-to-a-civil-day-of-zero-length`: a whole civil day skipped at
+//!   the date line makes "one day before r" the instant r itself;
+//! * references: month ends that clamp backwards, a mid-day datetime, the
+//!   limits of the civil range (section `edge_refs`), a zone without
+//!   transitions, midnight of each transition day, synthetic zones;
+//! * sections `forms` (every alternative way of building the options must give
+//!   the builder form's result), `arith_durations` (SignedDuration /
+//!   std::time::Duration operands), `round_increments` (the whole increment
+//!   alphabet).
+
+#[path = "c11/ext.rs"]
+mod ext;
+#[path = "c11/model.rs"]
+mod model;
 
 use jiff::civil::{Date, DateTime};
 use jiff::tz::AmbiguousOffset;
@@ -63,7 +90,10 @@ use rayon::prelude::*;
 use refmodel::num::{self, Mode};
 use serde_json::json;
 use std::cmp::Ordering;
+use model::{Madd, ZModel};
 use std::collections::BTreeSet;
+use std::sync::atomic::{AtomicU64, Ordering as AO};
+use std::sync::Arc;
 use vf::conv::{self, DAY_NS, NS};
 use vf::{guard, panic_sig, Report};
 
@@ -353,6 +383,16 @@ fn span_pool(level: u8) -> Vec<Sp> {
             push(sp);
         }
     }
+    // (coverage extension) mixes with a week field between other calendar
+    // units, and 30 days (the exact tie between 0 and 2 months from 2024-02-29)
+    let more: [&[(usize, i64)]; 5] = [&[(D, 30)], &[(MO, 1), (W, 1), (D, 1)], &[(W, 1), (D, 6), (5, 23)], &[(Y, 1), (MO, 11), (W, 3), (D, 6)], &[(Y, 1), (W, 1)]];
+    for e in more {
+        let mut sp = [0; 10];
+        for &(u, x) in e {
+            sp[u] = x;
+        }
+        push(sp);
+    }
     for sp in &out {
         assert!(try_span(sp).is_some(), "pool span constructible: {}", fmt_sp(sp));
     }
@@ -423,7 +463,8 @@ enum RfK {
     Marker,
     /// civil datetime; `true` when handed to jiff as a `civil::Date`
     Civil(DateTime, bool),
-    Zoned(Zoned),
+    /// zoned datetime with the reference model of its time zone
+    Zoned(Zoned, Arc<ZModel>),
 }
 
 struct Rf {
@@ -450,7 +491,7 @@ impl Rf {
             RfK::Marker => Some(SpanRelativeTo::days_are_24_hours()),
             RfK::Civil(dt, true) => Some(SpanRelativeTo::from(dt.date())),
             RfK::Civil(dt, false) => Some(SpanRelativeTo::from(*dt)),
-            RfK::Zoned(z) => Some(SpanRelativeTo::from(z)),
+            RfK::Zoned(z, _) => Some(SpanRelativeTo::from(z)),
         }
     }
     /// largest unit usable with this reference
@@ -488,43 +529,100 @@ impl Rf {
         match &self.k {
             RfK::None | RfK::Marker => 0,
             RfK::Civil(dt, _) => conv::dt_civil_ns(*dt),
-            RfK::Zoned(z) => conv::ts_ns(z.timestamp()),
+            RfK::Zoned(z, _) => conv::ts_ns(z.timestamp()),
         }
     }
-    /// `r + span` with jiff's own addition, as a point on a line: exact
-    /// nanoseconds (no reference), civil nanoseconds, or the instant.
+    /// `r + span` as a point on a line: exact nanoseconds (no reference), civil
+    /// nanoseconds, or the instant. Computed twice - with jiff's own addition
+    /// and with the reference addition of `model` (refmodel::cal / refmodel::tz)
+    /// - and reconciled: a value on which the two disagree is a violation (of
+    /// C06/C08, reported here under `helper`) and the model's value is used.
     fn point(&self, r: &Report, f: &Sp) -> Option<i128> {
         match &self.k {
             RfK::None | RfK::Marker => inv_ns(f, self.allowed()),
             RfK::Civil(dt, _) => {
                 let span = try_span(f)?;
-                match guard(|| dt.checked_add(span)) {
+                let jf = match guard(|| dt.checked_add(span)) {
                     Ok(Ok(x)) => Some(conv::dt_civil_ns(x)),
                     Ok(Err(_)) => None,
                     Err(p) => {
                         r.viol("helper", &format!("DateTime::checked_add/{}", panic_sig(&p)), format!("{} + {}", dt, fmt_sp(f)), p);
                         None
                     }
-                }
+                };
+                reconcile(r, "DateTime::checked_add", jf, model::civil_add(conv::dt_civil_ns(*dt), f), &|| format!("{} + {}", dt, fmt_sp(f)))
             }
-            RfK::Zoned(_) => self.zpoint(r, f).map(|z| conv::ts_ns(z.timestamp())),
+            RfK::Zoned(..) => self.zpoint(r, f).map(|z| conv::ts_ns(z.timestamp())),
         }
     }
     fn zpoint(&self, r: &Report, f: &Sp) -> Option<Zoned> {
-        let RfK::Zoned(z) = &self.k else { return None };
-        zadd(r, z, f)
+        let RfK::Zoned(z, zm) = &self.k else { return None };
+        zadd(r, z, zm, f)
+    }
+    fn zmodel(&self) -> Option<&ZModel> {
+        match &self.k {
+            RfK::Zoned(_, zm) => Some(zm),
+            _ => None,
+        }
     }
 }
 
-fn zadd(r: &Report, z: &Zoned, f: &Sp) -> Option<Zoned> {
+/// how often the two additions were compared, and how they related
+static ADD_AGREE: AtomicU64 = AtomicU64::new(0);
+static ADD_MODEL_UNDEF: AtomicU64 = AtomicU64::new(0);
+static ADD_BOTH_ERR: AtomicU64 = AtomicU64::new(0);
+static ADD_JIFF_OK_MODEL_ERR: AtomicU64 = AtomicU64::new(0);
+static ADD_JIFF_ERR_MODEL_OK: AtomicU64 = AtomicU64::new(0);
+static ADD_DIFFER: AtomicU64 = AtomicU64::new(0);
+
+fn reconcile(r: &Report, op: &str, jf: Option<i128>, m: Madd, case: &dyn Fn() -> String) -> Option<i128> {
+    match (jf, m) {
+        (Some(a), Madd::Ok(b)) if a == b => {
+            ADD_AGREE.fetch_add(1, AO::Relaxed);
+            Some(a)
+        }
+        (Some(a), Madd::Ok(b)) => {
+            ADD_DIFFER.fetch_add(1, AO::Relaxed);
+            r.viol("helper", &format!("{}/value-differs-from-reference-addition", op), case(), format!("jiff {} model {}", conv::fmt_ns(a), conv::fmt_ns(b)));
+            Some(b)
+        }
+        (Some(a), Madd::Undef) => {
+            ADD_MODEL_UNDEF.fetch_add(1, AO::Relaxed);
+            Some(a)
+        }
+        // which additions near the range limits must fail is C06/C08's business
+        (Some(a), Madd::Err) => {
+            ADD_JIFF_OK_MODEL_ERR.fetch_add(1, AO::Relaxed);
+            Some(a)
+        }
+        (None, Madd::Ok(_)) => {
+            ADD_JIFF_ERR_MODEL_OK.fetch_add(1, AO::Relaxed);
+            None
+        }
+        (None, _) => {
+            ADD_BOTH_ERR.fetch_add(1, AO::Relaxed);
+            None
+        }
+    }
+}
+
+fn zadd(r: &Report, z: &Zoned, zm: &ZModel, f: &Sp) -> Option<Zoned> {
     let span = try_span(f)?;
-    match guard(|| z.checked_add(span)) {
+    let jz = match guard(|| z.checked_add(span)) {
         Ok(Ok(x)) => Some(x),
         Ok(Err(_)) => None,
         Err(p) => {
             r.viol("helper", &format!("Zoned::checked_add/{}", panic_sig(&p)), format!("{} + {}", z, fmt_sp(f)), p);
             None
         }
+    };
+    let jf = jz.as_ref().map(|x| conv::ts_ns(x.timestamp()));
+    let m = zm.add(conv::ts_ns(z.timestamp()), f);
+    let want = reconcile(r, "Zoned::checked_add", jf, m, &|| format!("{} + {}", z, fmt_sp(f)))?;
+    if jf == Some(want) {
+        jz
+    } else {
+        conv::ts_from_ns(want).map(|t| t.to_zoned(z.time_zone().clone()))
     }
 }
 
@@ -533,8 +631,13 @@ fn civil_refs(level: u8) -> Vec<Rf> {
         Rf { k: RfK::None, name: "none".into(), mid: true, r_later: false },
         Rf { k: RfK::Marker, name: "days-are-24h".into(), mid: true, r_later: false },
     ];
-    let all: [(i16, i8, i8); 7] = [(2023, 1, 31), (2024, 1, 31), (2024, 2, 29), (2023, 12, 31), (0, 3, 1), (-9998, 1, 1), (9998, 12, 31)];
+    // the last two: month ends that clamp when going *backwards* (-1 month
+    // from 03-31 and from 03-30 is the end of February in a leap / common year)
+    let all: [(i16, i8, i8); 9] = [(2023, 1, 31), (2024, 1, 31), (2024, 2, 29), (2023, 12, 31), (0, 3, 1), (-9998, 1, 1), (9998, 12, 31), (2024, 3, 31), (2023, 3, 30)];
     for (i, &(y, m, d)) in all.iter().enumerate() {
+        if level == 0 && i == 8 {
+            continue;
+        }
         let date = Date::new(y, m, d).unwrap();
         let mid = (1900..=2100).contains(&y);
         // quick: every date as a Date; the datetimes for four of them
@@ -547,6 +650,24 @@ fn civil_refs(level: u8) -> Vec<Rf> {
             let dt = date.at(23, 59, 59, 999_999_999);
             v.push(Rf { k: RfK::Civil(dt, false), name: format!("datetime:{}", dt), mid, r_later: false });
         }
+    }
+    // a datetime in the middle of a day (neither midnight nor the last nanosecond)
+    let dt = Date::new(2024, 2, 29).unwrap().at(12, 30, 0, 500_000_000);
+    v.push(Rf { k: RfK::Civil(dt, false), name: format!("datetime:{}", dt), mid: true, r_later: false });
+    v
+}
+
+/// References at the very limits of the civil range. jiff documents that a
+/// civil reference there may be refused (it is anchored as a UTC instant and the
+/// timestamp range is narrower); what is demanded is the absence of panics and,
+/// when a result is returned, the same oracle as everywhere else.
+fn edge_refs() -> Vec<Rf> {
+    let mut v = vec![];
+    for date in [Date::MIN, Date::MAX, Date::new(-9999, 1, 2).unwrap(), Date::new(9999, 12, 30).unwrap()] {
+        v.push(Rf { k: RfK::Civil(date.at(0, 0, 0, 0), true), name: format!("date:{}", date), mid: false, r_later: false });
+    }
+    for dt in [DateTime::MIN, DateTime::MAX] {
+        v.push(Rf { k: RfK::Civil(dt, false), name: format!("datetime:{}", dt), mid: false, r_later: false });
     }
     v
 }
@@ -562,9 +683,21 @@ fn zoned_refs(r: &Report, level: u8) -> Vec<Rf> {
     let mut out = vec![];
     let mut n_gap = 0;
     let mut n_fold = 0;
-    for src in vf::zones::rep() {
-        if level == 0 && !quick_zones.contains(&src.name.as_str()) {
+    // synthetic zones (zic-compiled): a whole civil day skipped / repeated at
+    // the date line, a 30-minute DST shift, a DST shift of 20 min 15 s
+    let synth_zones: &[&str] = if level == 0 { &["Synth/HalfHour"] } else { &["Synth/HalfHour", "Synth/SkipDay", "Synth/RepeatDay", "Synth/SubMinute"] };
+    let mut sources = vf::zones::rep();
+    sources.extend(vf::zones::synth("fat").into_iter().filter(|z| synth_zones.contains(&z.name.as_str())));
+    let mut n_synth = 0;
+    let mut n_fixed = 0;
+    let mut n_midnight = 0;
+    for src in sources {
+        let synthetic = src.name.starts_with("Synth/");
+        if level == 0 && !synthetic && src.name != "UTC" && !quick_zones.contains(&src.name.as_str()) {
             continue;
+        }
+        if synthetic {
+            n_synth += 1;
         }
         let pair = match vf::zones::load_pair(&src) {
             Ok(p) => p,
@@ -573,6 +706,7 @@ fn zoned_refs(r: &Report, level: u8) -> Vec<Rf> {
                 continue;
             }
         };
+        let zm = Arc::new(ZModel::new(pair.model.clone(), conv::ts_min_ns(), conv::ts_max_ns()));
         let z = &pair.model;
         let off = |k: usize| z.infos[z.pieces[k].info as usize].utoff as i64;
         let ok = |k: usize| {
@@ -581,8 +715,17 @@ fn zoned_refs(r: &Report, level: u8) -> Vec<Rf> {
                 return false;
             }
             let (_, m, d) = refmodel::cal::civil_from_days(p.start.div_euclid(86_400));
-            !((m == 12 && d >= 28) || (m == 1 && d <= 4))
+            // (the synthetic zones used here have no rule near New Year)
+            synthetic || !((m == 12 && d >= 28) || (m == 1 && d <= 4))
         };
+        if z.changing().is_empty() {
+            // a zone without any transition: every day is 24 hours long
+            let x = (refmodel::cal::days_from_civil(2024, 2, 29) * 86_400 + 12 * 3_600) as i128 * NS;
+            if let Some(ts) = conv::ts_from_ns(x) {
+                out.push(Rf { name: format!("zoned:{}@{}", pair.name, conv::fmt_ns(x)), k: RfK::Zoned(ts.to_zoned(pair.jiff.clone()), zm.clone()), mid: true, r_later: false });
+                n_fixed += 1;
+            }
+        }
         let ks = z.changing();
         let gap = ks.iter().rev().copied().find(|&k| ok(k) && off(k) > off(k - 1));
         let fold = ks.iter().rev().copied().find(|&k| ok(k) && off(k) < off(k - 1));
@@ -602,7 +745,7 @@ fn zoned_refs(r: &Report, level: u8) -> Vec<Rf> {
                 if let Some(ts) = conv::ts_from_ns(x) {
                     let zd = ts.to_zoned(pair.jiff.clone());
                     let r_later = later_side_of_fold(&zd);
-                    out.push(Rf { name: format!("zoned:{}@{}", pair.name, conv::fmt_ns(x)), k: RfK::Zoned(zd), mid: true, r_later });
+                    out.push(Rf { name: format!("zoned:{}@{}", pair.name, conv::fmt_ns(x)), k: RfK::Zoned(zd, zm.clone()), mid: true, r_later });
                 }
             };
             for dd in [-1i64, 1] {
@@ -615,6 +758,14 @@ fn zoned_refs(r: &Report, level: u8) -> Vec<Rf> {
             for x in [tn - 1, tn, tn + 1] {
                 push_ts(x);
             }
+            // 00:00 of the civil day the transition happens on (the old
+            // offset's reading): a reference whose first day is 23 / 25 / ...
+            // hours long without the reference itself touching the window
+            let day0 = (t + ob).div_euclid(86_400) * 86_400;
+            if day0 - ob < t - 1 {
+                push_ts((day0 - ob) as i128 * NS);
+                n_midnight += 1;
+            }
             if !is_gap {
                 push_ts(tn - (w / 2) as i128 * NS);
                 push_ts(tn + (w / 2) as i128 * NS);
@@ -623,6 +774,9 @@ fn zoned_refs(r: &Report, level: u8) -> Vec<Rf> {
     }
     r.count("zoned_ref_gaps", n_gap);
     r.count("zoned_ref_folds", n_fold);
+    r.count("zoned_ref_zones_synthetic", n_synth);
+    r.count("zoned_ref_in_zone_without_transitions", n_fixed);
+    r.count("zoned_ref_midnight_of_transition_day", n_midnight);
     out
 }
 
@@ -631,7 +785,30 @@ fn zoned_refs(r: &Report, level: u8) -> Vec<Rf> {
 // ---------------------------------------------------------------------------
 
 /// outcome classes the non-vacuity requirements read back
-const REQ: [&str; 12] = ["ok", "exact", "moved", "tie_right", "refused_as_required", "ok_variable_unit", "ok_fractional", "compare_less", "compare_equal", "compare_greater", "arith_ok", "error_out_of_range"];
+const REQ: &[&str] = &[
+    "ok",
+    "exact",
+    "moved",
+    "tie_right",
+    "refused_as_required",
+    "ok_variable_unit",
+    "ok_fractional",
+    "compare_less",
+    "compare_equal",
+    "compare_greater",
+    "arith_ok",
+    "error_out_of_range",
+    "balanced",
+    "week_above_week_all_weeks_168h",
+    "week_above_week_offset_changes_within_reach",
+    "form_same",
+    "round_builder_ok",
+    "round_builder_err",
+    "ok_nonzero_duration",
+    "ok_calendar_a",
+    "legal_increment",
+    "illegal_increment",
+];
 
 #[derive(Default)]
 struct Loc {
@@ -713,6 +890,20 @@ fn must_err(rf: &Rf, own: usize, s: usize, l: Option<usize>, inc: i64) -> Option
     }
 }
 
+/// `smallest = week`, `largest > week`, zoned: does the UTC offset stay the same
+/// everywhere within reach of the rounding (from r to r+span, widened by one
+/// increment and two weeks on both sides)? Then every week involved is 168
+/// hours long.
+fn w1_all_weeks_uniform(c: &RoundCase, inc: i64) -> bool {
+    match (c.rf.zmodel(), c.e) {
+        (Some(zm), Some(e)) => {
+            let reach = (inc as i128 + 2) * 7 * DAY_NS;
+            zm.offset_constant_in(c.origin.min(e) - reach, c.origin.max(e) + reach)
+        }
+        _ => false,
+    }
+}
+
 /// input class shared by the signatures of one rounding
 fn in_class(c: &RoundCase, s: usize, eff_l: usize, inc: i64) -> String {
     let zoned = matches!(c.rf.k, RfK::Zoned(..));
@@ -721,23 +912,67 @@ fn in_class(c: &RoundCase, s: usize, eff_l: usize, inc: i64) -> String {
     }
     if zoned && s == W && eff_l > W {
         // weeks are not uniform relative to a zoned datetime and the balanced
-        // form (months and days) has no week field to start from
-        return "smallest=week,largest>week,zoned".into();
+        // form (months and days) has no week field to start from (W1). That
+        // mechanism needs weeks of different lengths: when the UTC offset does
+        // not change anywhere within reach of the rounding (from r to r+span,
+        // widened by one increment and two weeks on both sides) every week
+        // involved is 168 hours long, W1 cannot explain a failure, and the
+        // case is classified like any other.
+        if !w1_all_weeks_uniform(c, inc) {
+            return "smallest=week,largest>week,zoned".into();
+        }
     }
     let sc = if s < D { "time" } else { UN[s] };
     // the length of the days near r+span only matters to the time-unit path
-    let zc = if s >= D && c.zclass.starts_with("zoned") && c.zclass != "zoned:r+span-on-later-side-of-fold" { "zoned" } else { c.zclass };
+    let zc = if s >= D && c.zclass.starts_with("zoned") && c.zclass != "zoned:r+span-on-later-side-of-fold" && c.zclass != "zoned:next-to-a-civil-day-of-zero-length" { "zoned" } else { c.zclass };
+    let shadow = c.shadow && eff_l >= MO && s <= MO;
+    // the clamped-month-end shadow says more than "the reference is the later
+    // instant of a fold" (which on its own explains no known finding)
+    let zc = if shadow && zc == "zoned:reference-on-later-side-of-fold" { "zoned" } else { zc };
     let mut out = format!("{},smallest={},{}", if c.sign < 0 { "negative-span" } else { "positive-span" }, sc, zc);
-    if c.shadow && eff_l >= MO && s <= MO {
+    if shadow {
         out.push_str(",r+span-in-shadow-of-clamped-month-end");
     }
     if c.sign > 0 && s >= D && s != W && c.whole[s] {
         out.push_str(",whole-units-of-smallest");
     }
-    if s >= D && c.near_whole[s] && !out.contains("shadow") {
+    if s >= D && c.near_whole[s] && !out.contains("shadow") && zc != "zoned:r+span-on-later-side-of-fold" && zc != "zoned:next-to-a-civil-day-of-zero-length" {
         out.push_str(",within-1us-of-whole-units-of-smallest");
     }
     out
+}
+
+/// "Balanced" (the documentation of `Span::round`: "returns a new span that is
+/// balanced and rounded"; the statement: "balancing a span to a different
+/// largest unit"), in the conservative reading every interpretation shares: a
+/// field below the largest allowed unit never holds a whole unit of the next
+/// allowed field when that unit has a fixed length - sub-second fields < 1000,
+/// seconds and minutes < 60, hours < 24 unless days vary (zoned), days < 7
+/// under weeks, months < 12 under years - and days <= 31 under months/years.
+/// The day and month bounds are only demanded when the rounding step is a
+/// single unit (an increment of 100 days may legitimately stay as days).
+/// Weeks are exempt (jiff documents that it only balances into weeks when the
+/// largest unit is weeks, and `smallest = week` keeps what it rounded).
+fn unbalanced_unit(rf: &Rf, g: &Sp, s: usize, eff_l: usize, inc: i64) -> Option<usize> {
+    let zoned = matches!(rf.k, RfK::Zoned(..));
+    for u in 0..5 {
+        if eff_l > u && g[u].unsigned_abs() >= NEXT[u] as u64 {
+            return Some(u);
+        }
+    }
+    if eff_l >= D && !zoned && g[5].unsigned_abs() >= 24 {
+        return Some(5);
+    }
+    if eff_l == W && g[D].unsigned_abs() >= 7 {
+        return Some(D);
+    }
+    if eff_l >= MO && (s < D || (s == D && inc == 1)) && g[D].unsigned_abs() > 31 {
+        return Some(D);
+    }
+    if eff_l == Y && (s < MO || (s == MO && inc == 1)) && g[MO].unsigned_abs() >= 12 {
+        return Some(MO);
+    }
+    None
 }
 
 fn round_all(r: &Report, sec: &str, c: &RoundCase, lc: &mut Loc) -> u64 {
@@ -827,6 +1062,9 @@ fn round_one(r: &Report, sec: &str, c: &RoundCase, s: usize, l: Option<usize>, i
         }
     };
     lc.add("ok");
+    if s == W && eff_l > W && matches!(rf.k, RfK::Zoned(..)) {
+        lc.add(if w1_all_weeks_uniform(c, inc) { "week_above_week_all_weeks_168h" } else { "week_above_week_offset_changes_within_reach" });
+    }
     let g = fields(&rounded);
     // (1) structure
     let mut structure_ok = true;
@@ -845,6 +1083,21 @@ fn round_one(r: &Report, sec: &str, c: &RoundCase, s: usize, l: Option<usize>, i
     if g.iter().any(|&x| x < 0) && g.iter().any(|&x| x > 0) {
         structure_ok = false;
         r.viol(sec, &format!("Span::round/mixed-signs:{}", in_class(c, s, eff_l, inc)), cs(), format!("jiff {}", fmt_sp(&g)));
+    }
+    // (1b) balanced: no field holds a whole unit of the next allowed field
+    if structure_ok {
+        match unbalanced_unit(rf, &g, s, eff_l, inc) {
+            Some(u) => {
+                lc.add("not_balanced");
+                // r+span a whole number of `smallest` units from r: tagged for both signs here
+                let mut cls = in_class(c, s, eff_l, inc);
+                if s >= D && c.whole[s] && !cls.contains("whole-units-of-smallest") {
+                    cls.push_str(",whole-units-of-smallest");
+                }
+                r.viol(sec, &format!("Span::round/not-balanced:{}-field:{}", UN[u], cls), cs(), format!("jiff {} (largest allowed {})", fmt_sp(&g), UN[eff_l]));
+            }
+            None => lc.add("balanced"),
+        }
     }
     // lesson (b): the total, recorded only
     if structure_ok && own_largest(&g) <= rf.uniform_max() && s <= W {
@@ -924,7 +1177,7 @@ fn neighbour(r: &Report, rf: &Rf, rz: Option<&Zoned>, rp: i128, g: &Sp, s: usize
     // (what `r + span'` means for the span' with the stepped field; written
     // this way it also covers a span' that would need mixed signs)
     let _ = (rz, rp);
-    let RfK::Zoned(z) = &rf.k else { return None };
+    let RfK::Zoned(z, zm) = &rf.k else { return None };
     if (0..D).any(|u| g[u] != 0) {
         return None;
     }
@@ -944,14 +1197,17 @@ fn neighbour(r: &Report, rf: &Rf, rz: Option<&Zoned>, rp: i128, g: &Sp, s: usize
         }
         z.time_zone().to_zoned(dt)
     });
-    match got {
+    let jf = match got {
         Ok(Ok(x)) => Some(conv::ts_ns(x.timestamp())),
         Ok(Err(_)) => None,
         Err(p) => {
             r.viol("helper", &format!("civil-step/{}", panic_sig(&p)), format!("{} + {} step {}", z, fmt_sp(g), step), p);
             None
         }
-    }
+    };
+    // the same neighbour from the reference addition
+    let m = zm.add_stepped(conv::ts_ns(z.timestamp()), g, step);
+    reconcile(r, "civil-step", jf, m, &|| format!("{} + {} step {}", z, fmt_sp(g), step))
 }
 
 #[allow(clippy::too_many_arguments)]
@@ -959,7 +1215,7 @@ fn check_neighbour(r: &Report, sec: &str, c: &RoundCase, s: usize, eff_l: usize,
     let rf = c.rf;
     let rz = rf.zpoint(r, g);
     let rp = match &rf.k {
-        RfK::Zoned(_) => rz.as_ref().map(|z| conv::ts_ns(z.timestamp())),
+        RfK::Zoned(..) => rz.as_ref().map(|z| conv::ts_ns(z.timestamp())),
         _ => rf.point(r, g),
     };
     let Some(rp) = rp else {
@@ -1065,7 +1321,7 @@ fn add_date(r: &Report, rf: &Rf, f: &Sp) -> Option<Date> {
                 _ => None,
             }
         }
-        RfK::Zoned(_) => rf.zpoint(r, f).map(|z| z.date()),
+        RfK::Zoned(..) => rf.zpoint(r, f).map(|z| z.date()),
         _ => None,
     }
 }
@@ -1080,13 +1336,16 @@ fn mk_case<'a>(r: &Report, rf: &'a Rf, f: &'a Sp) -> RoundCase<'a> {
     let mut near_whole = [false; 10];
     let mut shadow = false;
     let (e, zclass) = match &rf.k {
-        RfK::Zoned(z0) => {
+        RfK::Zoned(z0, _) => {
             let ez = rf.zpoint(r, f);
             let e = ez.as_ref().map(|z| conv::ts_ns(z.timestamp()));
             let e_later = ez.as_ref().map(later_side_of_fold).unwrap_or(false);
             zfold = rf.r_later || e_later;
             // is the civil day that contains E (counted in whole days from r), or the one before it, not 24 hours long?
             let mut irregular = false;
+            // ... or even of zero length (a whole civil day skipped at the date
+            // line: "one day" before / after it is the same instant)
+            let mut zero_day = false;
             if let Some(e) = e {
                 if let Some((p, q)) = total_model(r, rf, D, origin, e) {
                     let n = p.abs() / q;
@@ -1100,6 +1359,7 @@ fn mk_case<'a>(r: &Report, rf: &'a Rf, f: &'a Sp) -> RoundCase<'a> {
                         if k >= 0 {
                             if let (Some(a), Some(b)) = (pt(k), pt(k + 1)) {
                                 irregular |= (b - a).abs() != DAY_NS;
+                                zero_day |= a == b;
                             }
                         }
                     }
@@ -1108,7 +1368,9 @@ fn mk_case<'a>(r: &Report, rf: &'a Rf, f: &'a Sp) -> RoundCase<'a> {
             let _ = z0;
             // civil order and instant order differ only inside a fold, so
             // the later side of a fold at r+span comes first
-            let zc = if e_later {
+            let zc = if zero_day {
+                "zoned:next-to-a-civil-day-of-zero-length"
+            } else if e_later {
                 "zoned:r+span-on-later-side-of-fold"
             } else if irregular {
                 "zoned:near-a-day-that-is-not-24h"
@@ -1133,7 +1395,7 @@ fn mk_case<'a>(r: &Report, rf: &'a Rf, f: &'a Sp) -> RoundCase<'a> {
                     g[MO] = n as i64;
                     let rday = match &rf.k {
                         RfK::Civil(dt, _) => dt.day(),
-                        RfK::Zoned(z) => z.day(),
+                        RfK::Zoned(z, _) => z.day(),
                         _ => 0,
                     };
                     if let Some(d) = add_date(r, rf, &g) {
@@ -1314,7 +1576,9 @@ fn section_total(r: &Report, sec: &str, refs: &[Rf], pool: &[Sp]) {
         for u in 0..10 {
             let cs = || format!("{} span={} ref={} unit={}", sec, fmt_sp(f), rf.name, UN[u]);
             let cls = || {
-                format!("unit={},{}{}", UN[u], c.zclass, if c.shadow && u >= MO { ",r+span-in-shadow-of-clamped-month-end" } else { "" })
+                let shadow = c.shadow && u >= MO;
+                let zc = if shadow && c.zclass == "zoned:reference-on-later-side-of-fold" { "zoned" } else { c.zclass };
+                format!("unit={},{}{}", UN[u], zc, if shadow { ",r+span-in-shadow-of-clamped-month-end" } else { "" })
             };
             let got = guard(|| match rf.rel() {
                 Some(rel) => c.span.total((UNITS[u], rel)),
@@ -1476,13 +1740,20 @@ fn section_pairs(r: &Report, refs: &[Rf], sub: &[Sp]) {
                     let mut zc = rf.kind();
                     let end: Option<i128> = match &rf.k {
                         RfK::None | RfK::Marker => a.e.zip(inv_ns(&bf, rf.allowed())).map(|(x, y)| x + y),
-                        RfK::Civil(dt, _) => try_span(a.f).zip(try_span(&bf)).and_then(|(sa, sb)| match guard(|| dt.checked_add(sa).and_then(|m| m.checked_add(sb))) {
-                            Ok(Ok(x)) => Some(conv::dt_civil_ns(x)),
-                            _ => None,
+                        RfK::Civil(dt, _) => try_span(a.f).zip(try_span(&bf)).and_then(|(sa, sb)| {
+                            let jf = match guard(|| dt.checked_add(sa).and_then(|m| m.checked_add(sb))) {
+                                Ok(Ok(x)) => Some(conv::dt_civil_ns(x)),
+                                _ => None,
+                            };
+                            let m = match model::civil_add(conv::dt_civil_ns(*dt), a.f) {
+                                Madd::Ok(x) => model::civil_add(x, &bf),
+                                w => w,
+                            };
+                            reconcile(r, "DateTime::checked_add", jf, m, &|| format!("({} + {}) + {}", dt, fmt_sp(a.f), fmt_sp(&bf)))
                         }),
-                        RfK::Zoned(z) => {
-                            let mid = zadd(r, z, a.f);
-                            let endz = mid.as_ref().and_then(|m| zadd(r, m, &bf));
+                        RfK::Zoned(z, zm) => {
+                            let mid = zadd(r, z, zm, a.f);
+                            let endz = mid.as_ref().and_then(|m| zadd(r, m, zm, &bf));
                             zc = if rf.r_later {
                                 "zoned:reference-on-later-side-of-fold"
                             } else if endz.as_ref().map(later_side_of_fold).unwrap_or(false) {
@@ -1604,14 +1875,63 @@ fn main() {
     });
     r.section("total", || section_total(&r, "total", &crefs, &pool));
     r.section("total_zoned", || section_total(&r, "total_zoned", &zrefs, &pool));
+    // (coverage extension) references at the limits of the civil range:
+    // refusals are documented there; no panic, and the same oracle for
+    // whatever is returned
+    let erefs = edge_refs();
+    r.count("refs_at_civil_range_limits", erefs.len() as u64);
     r.section("compare_arith", || {
         section_pairs(&r, &crefs, &sub);
         section_pairs(&r, &zrefs, &sub);
+        section_pairs(&r, &erefs, &sub);
     });
     r.section("to_duration", || {
         section_to_duration(&r, &crefs, &pool);
         section_to_duration(&r, &zrefs, &pool);
+        section_to_duration(&r, &erefs, &sub);
     });
+    // --- coverage extension ---
+    r.section("round_edge", || section_round(&r, "round_edge", &erefs, &sub));
+    r.section("total_edge", || section_total(&r, "total_edge", &erefs, &sub));
+    // a spread of references for the sections that vary the *form* of the call:
+    // none, marker, every civil one, and of the zoned ones every third (quick)
+    let zstep = if level == 0 { 3 } else { 1 };
+    let some_refs: Vec<&Rf> = crefs.iter().chain(erefs.iter()).chain(zrefs.iter().step_by(zstep)).collect();
+    r.count("refs_for_forms_and_durations", some_refs.len() as u64);
+    // the sub-pool plus exact ties of single time / calendar units (where the
+    // default mode differs from its neighbours in the mode table)
+    let mut fpool = sub.clone();
+    for (u, x) in [(4usize, 30i64), (3, 30), (5, 12), (2, 500), (D, 15), (MO, 6)] {
+        for sg in [1, -1] {
+            let mut sp = [0; 10];
+            sp[u] = sg * x;
+            if !fpool.contains(&sp) {
+                fpool.push(sp);
+            }
+        }
+    }
+    r.section("forms", || ext::section_forms(&r, &some_refs, &fpool));
+    r.section("arith_durations", || ext::section_durations(&r, &some_refs, &sub));
+    r.section("round_increments", || {
+        let civ: Vec<&Rf> = crefs.iter().filter(|x| matches!(x.name.as_str(), "none" | "days-are-24h" | "date:2024-01-31" | "datetime:2024-02-29T12:30:00.5" | "date:2024-03-31")).collect();
+        ext::section_increments(&r, &civ, &sub);
+        let zstep = if level == 0 { 9 } else { 4 };
+        let zs: Vec<&Rf> = zrefs.iter().step_by(zstep).collect();
+        r.count("refs_for_round_increments", (civ.len() + zs.len()) as u64);
+        ext::section_increments(&r, &zs, &sub);
+    });
+    // how r + span was obtained
+    for (k, v) in [
+        ("addition:jiff_and_reference_addition_agree", &ADD_AGREE),
+        ("addition:reference_addition_undefined(F7 window, 3 pre-images)", &ADD_MODEL_UNDEF),
+        ("addition:both_out_of_range", &ADD_BOTH_ERR),
+        ("addition:jiff_ok_reference_out_of_range", &ADD_JIFF_OK_MODEL_ERR),
+        ("addition:jiff_err_reference_ok", &ADD_JIFF_ERR_MODEL_OK),
+        ("addition:values_differ", &ADD_DIFFER),
+    ] {
+        r.outcome(k, v.load(AO::Relaxed));
+    }
+    r.count("addition_cross_checked", ADD_AGREE.load(AO::Relaxed));
 
     let has = |k: &str| r.get_count(k) > 0;
     r.require(has("round_noref:ok") && has("round_noref:refused_as_required") && has("round_noref:moved") && has("round_noref:exact"), "round without reference: accepted, refused, moved and exact results all observed");
@@ -1621,13 +1941,23 @@ fn main() {
     r.require(has("pairs:compare_less") && has("pairs:compare_equal") && has("pairs:compare_greater") && has("pairs:arith_ok"), "compare: all three orderings; arithmetic: results checked");
     r.require(has("to_duration:ok") && has("to_duration:refused_as_required"), "to_duration: values and refusals observed");
     r.require(zrefs.iter().any(|x| x.r_later) && zrefs.iter().any(|x| !x.r_later) && r.get_count("zoned_ref_gaps") > 0 && r.get_count("zoned_ref_folds") > 0, "zoned references at gaps and folds, on both sides of a fold");
+    r.require(has("addition_cross_checked") && ADD_AGREE.load(AO::Relaxed) > 100 * (ADD_MODEL_UNDEF.load(AO::Relaxed) + 1), "r + span was cross-checked against the reference addition (and the reference addition was defined nearly everywhere)");
+    r.require(has("round_noref:balanced") && has("round_civil:balanced") && has("round_zoned:balanced"), "balance of the rounded span judged for every kind of reference");
+    r.require(has("round_zoned:week_above_week_all_weeks_168h") && has("round_zoned:week_above_week_offset_changes_within_reach"), "smallest=week with largest>week relative to zoned: both with and without an offset change within reach");
+    r.require(has("zoned_ref_in_zone_without_transitions") && has("zoned_ref_midnight_of_transition_day") && has("zoned_ref_zones_synthetic"), "zoned references: a zone without transitions, midnight of a transition day, a synthetic zone");
+    r.require(has("forms:form_same") && has("forms:round_builder_ok") && has("forms:round_builder_err"), "forms: the alternative call forms were compared on accepted and on refused configurations");
+    r.require(has("durations:ok_nonzero_duration") && has("durations:ok_calendar_a") && has("durations:refused_as_required"), "absolute durations: end points checked (also for spans with calendar units), refusals observed");
+    r.require(has("round_increments:legal_increment") && has("round_increments:illegal_increment") && has("round_increments:ok") && has("round_increments:refused_as_required"), "whole increment alphabet: legal ones judged, illegal ones refused");
     r.note(format!(
-        "alphabets: {} spans (singles at 1/carry-1/carry/carry+1/limit, exact-tie halves, 2-unit mixes just below a carry, fixed mixes; both signs); references: none, days-are-24h, {} civil dates/datetimes, {} zoned (latest recorded gap and fold of each zone at day-before, T-1ns, T, T+1ns, day-after, and both mid-fold instants); round: 10 smallest x (unset + every largest >= smallest) x 5 increments x 9 modes, plus every reversed pair once; total: 10 units; compare/checked_add/checked_sub: all ordered pairs of {} spans per reference; to_duration: whole pool",
+        "alphabets: {} spans (singles at 1/carry-1/carry/carry+1/limit, exact-tie halves, 2-unit mixes just below a carry, fixed mixes, week-in-the-middle mixes; both signs); references: none, days-are-24h, {} civil dates/datetimes (month ends clamping forwards and backwards, leap day, year 0, MIN+1y, MAX-1y, a mid-day datetime), {} at the limits of the civil range, {} zoned (latest recorded gap and fold of each representative zone and of the synthetic zones - 30-minute and 20m15s DST, a skipped and a repeated civil day - at day-before, T-1ns, T, T+1ns, day-after, midnight of the transition day and both mid-fold instants; one in UTC); round: 10 smallest x (unset + every largest >= smallest) x 5 increments x 9 modes, plus every reversed pair once, plus the whole increment alphabet on {} spans; total: 10 units; compare/checked_add/checked_sub: all ordered pairs of {} spans per reference; to_duration: whole pool; every alternative call form; SignedDuration / std Duration operands",
         pool.len(),
         crefs.len() - 2,
+        erefs.len(),
         zrefs.len(),
+        sub.len(),
         sub.len()
     ));
+    r.note("r + span is computed by jiff and by the reference addition (refmodel::cal / refmodel::tz) and the two are reconciled on every use; tolerance of total(): |f64 - exact rational| <= 2.5 ulp");
     r.sample(json!({"case": "round span={mo=1,d=15} ref=date:2024-01-31 smallest=d largest=w inc=5 mode=Floor", "model": "r+span = 2024-03-15 (44 days); reachable around it 6w0d (42) and 6w5d (47); Floor selects 42 days"}));
     r.sample(json!({"case": "round span={mo=-1,d=-15} ref=date:2023-12-31 smallest=mo mode=HalfTrunc", "model": "r+span = 2023-11-15, exactly half way between 2023-10-31 (-2mo) and 2023-11-30 (-1mo); HalfTrunc selects -1mo"}));
     r.sample(json!({"case": "total span={d=1} ref=zoned:America/New_York day of the spring gap unit=h", "model": "23/1 hours"}));
